@@ -32,7 +32,14 @@ package claim
 //@   assert [C08:foreground-waits-for-xr] ($cm.GetCompositeDeletePolicy() != nil && *$cm.GetCompositeDeletePolicy() == "Foreground") ==> !meta.WasCreated($xr)
 //@ site (claim.ManagedFieldsUpgrader).Upgrade(_, _, $o, _)
 //@   assert [C06:bound-before-upgrade] !(meta.WasCreated($xr) && $xr.GetClaimReference() != nil && !cmp.Equal($cm.GetReference(), $xr.GetClaimReference()))
+// the XR a claim references is either read, or known not to exist, before anything is synced
+// to it: an XR that could not be read (time-out, server error) may be bound to another claim
+//@ ghost xrUnreadable bool = false
+//@ optional site (client.Reader).Get(_, _, $key, $obj, $go...) as read-xr
+//@   where $obj == $xr
+//@   update xrUnreadable = err != nil && !call("k8s.io/apimachinery/pkg/api/errors.IsNotFound", err)
 //@ site (claim.CompositeSyncer).Sync(_, _, $c, $x)
+//@   assert [C06:no-sync-over-an-xr-that-could-not-be-read] !xrUnreadable
 //@   assert [C06:bound-before-sync] $c == $cm && $x == $xr && !(meta.WasCreated($xr) && $xr.GetClaimReference() != nil && !cmp.Equal($cm.GetReference(), $xr.GetClaimReference()))
 //@   assert [C08:no-sync-while-deleting] !meta.WasDeleted($cm)
 //@ site (claim.ConnectionPropagator).PropagateConnection(_, _, $to, $from)
@@ -222,3 +229,11 @@ package claim
 //@   assert [C07:xr-written-through-a-patching-applicator-of-the-given-client] $c == c
 //@ ensures [C07:xr-owned-fields-preserved-by-merge-patch] result != nil && result.client.Applicator == $app && result.client.Client == c
 
+
+// C09 (the claim's secret is an exact copy): the update guard of the claim's connection secret
+// lets the write through unless the stored data is identical to the XR's - a stored secret that
+// merely contains the XR's keys (and stale ones besides) is rewritten.
+//@ func (*claim.APIConnectionPropagator).PropagateConnection$1
+//@ props C09
+//@ requires current != nil && desired != nil && typeis(current, *corev1.Secret) && typeis(desired, *corev1.Secret)
+//@ ensures [C09:claim-secret-rewritten-unless-identical] result <==> !cmp.Equal(as(current, *corev1.Secret).Data, as(desired, *corev1.Secret).Data, cmpopts.EquateEmpty())
